@@ -36,7 +36,7 @@ COMPONENTS = {
 ASSUMPTIONS = [
     "the stub backends are correct solvers (they enumerate all models of everything they are given); only their legal freedom (which model, write order, sol on UNSAT) is adversarial",
     "route C: the stub's reading of the Sugar wire protocol equals the real solvers' (they cannot be installed offline)",
-    "progress bound per solve(): 2 + sum of |domain(k)| over answer keys backend calls",
+    "progress bound per solve(): 8 + 3 x (sum of |domain(k)| over answer keys) backend calls",
 ]
 
 SUGAR_NAMES = ["sugar", "sugar_extended", "csugar", "enigma_csp", "cspuz_core"]
@@ -94,7 +94,7 @@ def generate(rng, tier, index):
         if ids or rng.random() < 0.2:
             rng.shuffle(ids)
             keys.update(ids)
-            ops.append({"s": 0, "op": "add_key", "ids": ids, "form": rng.randint(0, 3)})
+            ops.append({"s": 0, "op": "add_key", "ids": ids, "form": rng.randint(0, 5)})
         if rng.random() < 0.25:
             ops.append({"s": 0, "op": "find_answer"})
         if rng.random() < 0.2:
@@ -252,7 +252,7 @@ def run(sc) -> RunResult:
                         solver.find_answer(backend=backend)
                         res.hit("perturb:find_answer_between")
                     elif k == "solve":
-                        bound = 2 + sum((2 if decls[i]["t"] == "b" else decls[i]["hi"] - decls[i]["lo"] + 1) for i in keys)
+                        bound = 8 + 3 * sum((2 if decls[i]["t"] == "b" else decls[i]["hi"] - decls[i]["lo"] + 1) for i in keys)
                         ctx.reset_calls()
                         ctx.cap = bound
                         peer.calls = 0
